@@ -5,7 +5,8 @@
 //!  1. randomness accounting (exactly 14 draws of 64 bytes, nothing else);
 //!  2. order-agnostic mask matching on the evaluations at z and z*omega;
 //!  2b. the same masks on the commitments (wire and permutation polynomials);
-//!  3. quotient shares and the whole proof against the naive prover (n <= 64);
+//!  3. quotient shares and the whole proof against the naive prover
+//!     (domains up to 256 rows in the quick tier, 512 in the thorough one);
 //!  4. freshness of two proofs of one witness.
 
 use std::sync::Arc;
@@ -54,7 +55,7 @@ pub fn run(tier: Tier, seed: u64) -> i32 {
         "cases = (circuit, witness, scripted RNG stream): the 14 scripted draws are all distinct and non-zero; \
          the monitor re-derives the challenges from the proof (R-VER transcript), evaluates the unmasked wire \
          and permutation polynomials from the snapshot of the same prove call, and searches the draws for the \
-         unique disjoint assignment that explains every masked evaluation and commitment; for n <= 64 the naive \
+         unique disjoint assignment that explains every masked evaluation and commitment; for domains up to 256 (thorough: 512) rows the naive \
          prover rebuilds the quotient shares and the whole proof; non-trivial = all 14 draws distinct and \
          non-zero and the circuit has >= 1 custom or public-input row (a separate bucket scripts zero draws at \
          every position and checks the randomness accounting only); distinct = fingerprint of (circuit, script)",
@@ -288,7 +289,8 @@ pub fn run(tier: Tier, seed: u64) -> i32 {
                 ev.violation("C06:permutation-commitment-not-the-masked-polynomial", json!({"case": desc}));
             }
             // ---- step 3: quotient shares and the whole proof (naive prover) ----------
-            if n <= 64 {
+            if n <= tier.pick(256, 512) {
+                ev.set_insert("step3_domains", n);
                 let blinders = rp::Blinders {
                     wires: [
                         [sc[assignment[0].1[0]], sc[assignment[0].1[1]]],
@@ -356,7 +358,8 @@ pub fn run(tier: Tier, seed: u64) -> i32 {
     });
     ev.floor("proofs through steps 1-2", ev.bucket_get("step2.matched"), tier.pick(30, 1000));
     ev.floor("commitment mask checks", ev.bucket_get("step2b"), tier.pick(80, 2000));
-    ev.floor("proofs rebuilt byte for byte by the naive prover", ev.bucket_get("step3.byte_equal"), tier.pick(10, 200));
+    ev.floor("proofs rebuilt byte for byte by the naive prover", ev.bucket_get("step3.byte_equal"), tier.pick(25, 500));
+    ev.floor("domain sizes rebuilt by the naive prover", ev.set_len("step3_domains") as u64, tier.pick(6, 7));
     ev.floor("freshness pairs", ev.bucket_get("step4"), tier.pick(30, 1000));
     ev.floor("scripts with zero draws", ev.bucket_get("zero_draw_scripts"), tier.pick(100, 3000));
     ev.floor("zero-draw positions", ev.set_len("zero_draw_positions") as u64, 14);
